@@ -75,6 +75,7 @@ def enumerate_cases(tier):
         out.append({"k": "cross-world", "terms": [["", a, 2 - (i % 2) * 3], ["kilo" if i % 3 == 0 else "", b, -1], ["", c3, 1 + i % 2]]})
     out.append({"k": "after-define"})
     out.append({"k": "stale-document"})
+    out.append({"k": "long-lived-decoder"})
     return out
 
 
@@ -172,10 +173,10 @@ def run_case(case) -> core.Outcome:
     c = convgen.ctx()
     m = c.m
     jsonmod = c.w.load("json")
-    if isinstance(case, dict) and case.get("k") in ("prefix-triples", "cross-world", "after-define", "stale-document"):
+    if isinstance(case, dict) and case.get("k") in ("prefix-triples", "cross-world", "after-define", "stale-document", "long-lived-decoder"):
         try:
             {"prefix-triples": _run_prefix_triples, "cross-world": _run_cross_world, "after-define": _run_after_define,
-             "stale-document": _run_stale_document}[case["k"]](c, case, out)
+             "stale-document": _run_stale_document, "long-lived-decoder": _run_long_lived_decoder}[case["k"]](c, case, out)
         finally:
             convgen.ctx()  # the shared world is the active one again
         return out
@@ -234,7 +235,7 @@ def run_case(case) -> core.Outcome:
             except Exception as e:  # noqa
                 where = f"{okind}:{cname}"
                 if okind == "quantity" and cname in ("json", "json-installed", "json-nested", "pydantic", "composite") and (shape in ("symbol-less", "folded") or shape.startswith("collision:")):
-                    out.fail(f"C15:quantity-unit-string:{shape}", f"{cname} of {obj!r}: the unit travels as str(unit) = {str(unit)!r}, which does not parse back ({type(e).__name__})")
+                    out.fail(f"C15:quantity-unit-string:{shape}", f"{cname} of {obj!r}: the unit travels as str(unit) = {_safe_str(unit)}, which does not parse back ({type(e).__name__})")
                 elif okind == "unit" and cname == "pydantic" and not base_unit:
                     out.fail("C15:pydantic:unit-field:nested-units", f"pydantic dump/validate of Unit field {obj!r} raised {type(e).__name__}: {str(e)[:160]}")
                 else:
@@ -293,7 +294,7 @@ def run_case(case) -> core.Outcome:
     if kind == "compound":
         mt = case["mag"]["t"]
         if any(p for p, _, _ in case["terms"]) or any(e < 0 for _, _, e in case["terms"]) or mt == "dec":
-            out.nontrivial = f"{x}|{mt}"
+            out.nontrivial = f"{convgen.terms_str(case['terms'])}|{mt}"
             out.sample = {"unit": convgen.terms_str(case["terms"]), "magnitude": case["mag"]}
     else:
         out.nontrivial = f"{kind}|{case.get('i', case.get('name'))}"
@@ -472,6 +473,69 @@ def _run_stale_document(c, case, out):
     out.sample = {"scenario": "encode, add a name/symbol, decode the older document"}
 
 
+def _run_long_lived_decoder(c, case, out):
+    """one decoder object (and one codecs_installed() block) lives through the import of further
+    unit modules: quantity documents are read before a module registers their unit text as a
+    symbol of its own ("hh" is hecto-hour until measured.us defines the hand) and quantities of
+    the newly registered units are round-tripped afterwards"""
+    from ..world import World
+
+    candidates = sorted(t for t in c.m.Unit._by_symbol if isinstance(t, str) and t)
+    w2 = World(["si"])
+    m2 = w2.m
+    j2 = w2.load("json")
+    enc = j2.MeasuredJSONEncoder
+    decoder = j2.MeasuredJSONDecoder()
+    n_pre = n_post = 0
+    with j2.codecs_installed():
+        early = [t for t in candidates if t not in m2.Unit._by_symbol]
+        from ..world import SHIPPED_MODULES
+
+        # the texts are read again before every further module is imported: what a text means
+        # changes as the symbol tables grow (hecto-hour, then hand)
+        for mod in [x for x in SHIPPED_MODULES if x != "si"] + [None]:
+            for t in early:
+                if t in m2.Unit._by_symbol:
+                    continue
+                doc = json.dumps({"__measured__": "Quantity", "magnitude": 16, "unit": t})
+                for fn in (decoder.decode, json.loads):
+                    try:
+                        fn(doc)
+                        n_pre += 1
+                    except Exception:  # noqa -- most texts mean nothing yet
+                        pass
+            if mod is not None:
+                w2.load(mod)
+        w2.load("measured.systems")
+        for t in early:
+            u = m2.Unit._by_symbol.get(t)
+            if u is None:
+                continue
+            q = m2.Quantity(16, u)
+            for cname, fn in (("decoder-object", lambda x: decoder.decode(json.dumps(x, cls=enc))), ("installed", lambda x: json.loads(json.dumps(x)))):
+                try:
+                    back = fn(q)
+                except Exception as e:  # noqa
+                    out.fail(f"C15:long-lived-decoder:{cname}:raises:{type(e).__name__}", f"{cname} round trip of {q!r} raised {type(e).__name__}: {e}")
+                    continue
+                n_post += 1
+                if not isinstance(back, m2.Quantity) or back.unit is not u or back.magnitude != 16 or type(back.magnitude) is not int:
+                    if isinstance(back, m2.Quantity) and str(back.unit) == str(u) and m2.Unit.parse(str(u)) is not u:
+                        continue  # the unit's own text does not parse back to it: C13's findings (K-UNIT-STRING)
+                    out.fail(f"C15:long-lived-decoder:{cname}:value", f"{cname} round trip of {q!r} through a decoder that had read {t!r} before the unit was registered gave {back!r}")
+    out.classes.append("long-lived-decoder:checked")
+    if n_pre and n_post:
+        out.nontrivial = "long-lived-decoder"
+        out.sample = {"scenario": "documents read before their unit text is registered, round trips after", "early_documents_decoded": n_pre, "round_trips_after_import": n_post}
+
+
+def _safe_str(x):
+    try:
+        return repr(str(x))
+    except Exception as e:  # noqa -- str() itself raises for some mixed-base prefixes (C13's subject)
+        return f"<str() raises {type(e).__name__}: {e}>"
+
+
 def _equal_value(c, a, b):
     from fractions import Fraction
 
@@ -490,6 +554,6 @@ def still_fails(case, bucket):
 
 
 def vacuity(col):
-    need = ["stale-document:checked", "prefix-triples:checked", "cross-world:checked", "after-define:checked", "unit:pickle5", "unit:json", "quantity:json", "quantity:composite", "dimension:json", "prefix:deepcopy"]
+    need = ["stale-document:checked", "long-lived-decoder:checked", "prefix-triples:checked", "cross-world:checked", "after-define:checked", "unit:pickle5", "unit:json", "quantity:json", "quantity:composite", "dimension:json", "prefix:deepcopy"]
     missing = [k for k in need if not col.classes.get(k)]
     return missing or None
